@@ -1,6 +1,7 @@
 #!/bin/sh
-# run every thorough check once, print one summary line each (used with vp run)
+# run every (or the named) thorough check once, print one summary line each (used with vp run)
 cd "$(dirname "$0")/.."
-for id in C16 C14 C10 C17 C15 C19 C12 C07 C09 C04 C18 C11 C13 C20 C08 C05 C03 C01 C02 C06; do
+[ $# -gt 0 ] || set -- C16 C14 C10 C17 C15 C19 C12 C07 C09 C04 C18 C11 C13 C20 C08 C05 C03 C01 C02 C06
+for id in "$@"; do
   /usr/bin/time -f "$id wall %es" ./check $id --tier thorough --no-evidence 2>&1 | grep -v "^  \|^KNOWN" | tail -4
 done
